@@ -45,12 +45,9 @@ TraceReset ==
   /\ IsEvent("reset")
   /\ con' = [c \in All |-> ConsInit]
   /\ cap' = [c \in All |-> IF c \in Healthy THEN HCap ELSE Trace[l].n]
-  /\ ws' = Trace[l].ws /\ npub' = 0 /\ pend' = <<>> /\ cnt' = [read |-> 0, stall |-> 0, sweep |-> 0]
+  /\ ws' = Trace[l].ws /\ npub' = 0 /\ pend' = <<>> /\ cnt' = CntInit
   /\ act' = [name |-> "init"]
   /\ failed' = FALSE /\ skip' = FALSE /\ sc' = Trace[l].sc /\ l0' = l /\ bound' = Trace[l].boundUs
-
-TracePubArrive == /\ IsEvent("PubArrive")
-                  /\ IF skip \/ failed THEN Pass ELSE IF Trace[l].ok THEN Pass ELSE Reject("PubArrive")
 
 \* a burst of enqueues P meets every consumer
 Burst2(e, P) ==
@@ -99,8 +96,27 @@ TraceFire == /\ IsEvent("Fire")
                    ELSE IF can /\ ~e.armed THEN Reject("NoWriteDeadline")
                    ELSE Do(e, [con EXCEPT ![c] = IF can THEN CutC(@) ELSE @])
 
+\* calls that run under Group.mutex must return whatever the consumers do
 TraceSweep == /\ IsEvent("Sweep")
-              /\ IF skip \/ failed THEN Pass ELSE Do(Trace[l], [c \in All |-> SweepC(con[c])])
+              /\ IF skip \/ failed THEN Pass
+                 ELSE IF Trace[l].blocked THEN Reject("NoBlocking")
+                 ELSE Do(Trace[l], [c \in All |-> SweepC(con[c])])
+
+\* the publisher leaves / a publisher arrives: the call returns, and whatever it hands to the consumers
+\* (seen at the healthy one) meets their queues like any other burst
+TracePubLeave == /\ IsEvent("PubLeave")
+                 /\ LET e == Trace[l] IN
+                    IF skip \/ failed THEN Pass
+                    ELSE IF e.blocked THEN Reject("NoBlocking")
+                    ELSE IF con[H].closed /\ \E c \in Cons : ~con[c].closed THEN SkipRest("healthy consumer gone")
+                    ELSE Burst2(e, e.wire[H])
+TracePubArrive == /\ IsEvent("PubArrive")
+                  /\ LET e == Trace[l] IN
+                     IF skip \/ failed THEN Pass
+                     ELSE IF e.blocked THEN Reject("NoBlocking")
+                     ELSE IF ~e.ok THEN Reject("PubArrive")
+                     ELSE IF con[H].closed /\ \E c \in Cons : ~con[c].closed THEN SkipRest("healthy consumer gone")
+                     ELSE Burst2(e, e.wire[H])
 
 TraceDrain ==
   /\ IsEvent("Drain")
@@ -113,7 +129,7 @@ TraceDrain ==
                THEN Reject("StreamProjection")
         ELSE Step(nxt)
 
-TraceNext == \/ TraceReset \/ TracePubArrive \/ TraceJoin \/ TracePublish \/ TraceStall \/ TraceResume
+TraceNext == \/ TraceReset \/ TracePubArrive \/ TracePubLeave \/ TraceJoin \/ TracePublish \/ TraceStall \/ TraceResume
              \/ TraceRead \/ TraceFire \/ TraceSweep \/ TraceDrain
 TraceSpec == TraceInit /\ [][TraceNext]_tvars
 HighWater == TLCSet(1, IF l > TLCGet(1) THEN l ELSE TLCGet(1))
